@@ -27,7 +27,22 @@ pub fn main(ctx: &Ctx) -> ! {
             // vfalloc printed its own VIOLATION lines (property C12)
             ctx.nviol.fetch_add(seq["violations"].as_u64().unwrap_or(1).max(1), std::sync::atomic::Ordering::SeqCst);
         },
-        c => machinery(&format!("vfalloc exited with {c:?}")),
+        Some(c) => machinery(&format!("vfalloc exited with {c}")),
+        None => {
+            // killed by a signal while running tendril operations under the tracking allocator: the subject
+            // read or wrote outside a live buffer (or corrupted the heap) - a verdict, as in ./check
+            use std::os::unix::process::ExitStatusExt;
+            let sig = st.signal().unwrap_or(0);
+            if matches!(sig, 4 | 6 | 7 | 11) {
+                ctx.violation(
+                    "crash",
+                    &format!("sequential histories under the tracking allocator: process killed by signal {sig}"),
+                    serde_json::json!({"signal": sig, "note": "re-run ./check C12 quick to reproduce; the C11 run of the same histories names the history when the corruption is visible in content"}),
+                );
+            } else {
+                machinery(&format!("vfalloc was killed by signal {sig}"));
+            }
+        },
     }
     // 2. loom part
     let loom_out = "/verif/loomjob/target/c12_loom.json";
@@ -113,6 +128,17 @@ pub fn replay(ctx: &Ctx, witness: &str) {
         if o.status.code() == Some(1) {
             ctx.violation("loom", witness, read_json(out));
         }
+    } else if witness.starts_with("sequential histories") {
+        // the process died: re-run the sequential part as the check does
+        use std::os::unix::process::ExitStatusExt;
+        let st = Command::new("/verif/engine/target/release/vfalloc")
+            .args(["C12", "quick", "/verif/engine/target/c12_seq_replay.json"])
+            .status()
+            .unwrap_or_else(|e| machinery(&format!("vfalloc: {e}")));
+        if st.code() == Some(1) || matches!(st.signal(), Some(4 | 6 | 7 | 11)) {
+            ctx.violation("crash", witness, serde_json::json!({"status": format!("{st:?}")}));
+        }
+        println!("replay: {}", if ctx.violations() == 0 { "passes" } else { "FAILS" });
     } else {
         let st = Command::new("/verif/engine/target/release/vfalloc")
             .args(["C12", "--replay-witness", witness])
